@@ -31,7 +31,7 @@ def parseM : String → Option MKind
   | "fsmov" => some .fsmov | "gsldeax" => some .gsldeax | "fsaddi8" => some .fsaddi8 | _ => none
 def parseA : String → Option AKind
   | "b" => some .b | "bl" => some .bl | "bcond" => some .bcond | "cbz" => some .cbz | "tbz" => some .tbz
-  | "adr" => some .adr | "adrp" => some .adrp | "ldr" => some .ldr | _ => none
+  | "adr" => some .adr | "adrp" => some .adrp | "ldr" => some .ldr | "bc" => some .bc | _ => none
 def parseOpt : String → Option FormOpt
   | "d" => some .dflt | "s" => some .short | "l" => some .long | _ => none
 
